@@ -54,11 +54,19 @@ GOOD_TAGS = [("py3", "none", "any"), ("py2.py3", "none", "any"), ("py3", "none",
              ("cp312", "cp312", "manylinux_2_17_x86_64"), ("cp312", "abi3", "manylinux2014_x86_64"),
              ("cp312", "cp312", "linux_x86_64"), ("cp311", "abi3", "manylinux1_x86_64"), ("py312", "none", "any"),
              ("cp312", "cp312", "manylinux_2_17_x86_64.manylinux2014_x86_64"), ("cp310", "abi3", "manylinux_2_5_x86_64"),
-             ("cp3", "none", "any"), ("py3", "none", "linux_x86_64")]
+             ("cp3", "none", "any"), ("py3", "none", "linux_x86_64"),
+             # two-digit / one-digit minors at or below the running interpreter, abi3 / none ABI, compressed sets
+             ("cp39", "abi3", "manylinux_2_17_x86_64"), ("cp310", "abi3", "linux_x86_64"), ("cp39.cp310", "none", "any"),
+             ("py39", "none", "any"), ("py310", "none", "any"), ("cp311.cp312", "none", "any"),
+             ("cp38.cp39", "abi3", "manylinux2014_x86_64"), ("cp312", "none", "any"), ("cp312.cp313", "abi3", "linux_x86_64")]
 FOREIGN_TAGS = [("py2", "none", "any"), ("cp313", "cp313", "manylinux_2_17_x86_64"), ("cp312", "cp312", "win_amd64"),
                 ("cp312", "cp312", "macosx_10_9_x86_64"), ("cp311", "cp311", "manylinux_2_17_x86_64"),
                 ("pp39", "pypy39_pp73", "manylinux_2_17_x86_64"), ("cp312", "cp312", "manylinux_2_99_x86_64"),
-                ("cp312", "cp312", "manylinux_2_17_aarch64"), ("py4", "none", "any")]
+                ("cp312", "cp312", "manylinux_2_17_aarch64"), ("py4", "none", "any"),
+                # NEWER two-digit minors with an otherwise acceptable ABI / platform
+                ("cp313", "abi3", "linux_x86_64"), ("cp313", "none", "any"), ("cp313.cp314", "none", "any"),
+                ("py313", "none", "any"), ("cp314", "abi3", "manylinux_2_17_x86_64"), ("cp320", "none", "any"),
+                ("py313.py314", "none", "any"), ("cp313", "abi3", "manylinux2014_x86_64")]
 BUILD_TAGS = ["", "", "", "", "1", "2", "1a", "10", "1_x"]
 SDIST_EXT = [".tar.gz", ".tar.gz", ".zip", ".tgz", ".tar.bz2"]
 BUDGETS = [None, None, 0, 1, 1, 2, 2, 3, 3, -1]
@@ -67,6 +75,40 @@ MALFORMED = ["foo_bar-1.0.egg", "foo_bar-1.0-py3-none.whl", "foo_bar-x.y-py3-non
              "foo-bar-1.0.win-amd64.zip", "foo_bar-1_0-py3-none-any.whl", "foo-bar-v2.0.tar.gz", "foo-bar-2.0-1.tar.gz",
              "foo_bar-1.0-1-2-py3-none-any.whl", "foo-bar-1.0.tar", "FOO_BAR-2.0.post1-py3-none-any.whl",
              "foo_bar-1.0--none-any.whl", "foo-bar-1.0.macosx-10.9-x86_64.tar.gz", "foo-bar-latest.zip"]
+
+
+_REF_TAGS: Dict[str, Any] = {}
+
+
+def ref_installable(filename: str) -> Optional[bool]:
+    """Independent reading of 'installable on the running interpreter and platform' for a wheel FILE NAME
+    (PEP 427 split, not the code's parser): every tag dimension must be one packaging.tags.sys_tags() lists for
+    this interpreter (some python tag of the set is a supported interpreter tag, the ABI is 'none' or a supported
+    ABI, some platform is supported).  None = outside the domain where this reading and req-compile's rule are
+    meant to coincide (not a plain wheel name; bare 'cp3' / 'cp30' / 'cp31' python tags, which sys_tags never
+    lists: C20's subject)."""
+    import re
+    if not _REF_TAGS:
+        import packaging.tags as PT
+        tags = list(PT.sys_tags())
+        _REF_TAGS["py"] = {t.interpreter for t in tags}
+        _REF_TAGS["abi"] = {t.abi for t in tags}
+        _REF_TAGS["plat"] = {t.platform for t in tags}
+    if not filename.endswith(".whl"):
+        return None
+    parts = filename[:-4].split("-")
+    if len(parts) not in (5, 6):
+        return None
+    pys, abis, plats = parts[-3].split("."), parts[-2].split("."), parts[-1].split(".")
+    for t in pys:
+        m = re.fullmatch(r"([a-z][a-z])(\d)(\d*)", t)
+        if not m:
+            return None
+        if m.group(1) != "py" and (m.group(3) == "" or (m.group(2) == "3" and int(m.group(3)) < 2)):
+            return None
+    return (any(t in _REF_TAGS["py"] for t in pys)
+            and any(a == "none" or a in _REF_TAGS["abi"] for a in abis)
+            and any(pl.lower() in _REF_TAGS["plat"] for pl in plats))
 
 
 def translate(ctx: Ctx) -> Dict[str, str]:
@@ -347,12 +389,24 @@ def correspondence(ctx: Ctx) -> None:
         cases.append(("gen", gen_case(rng, enc440, Version, pkg_resources)))
     lines: List[str] = []
     expect: List[Tuple[str, Dict[str, Any], str, Any]] = []
+    seen_files: set = set()
     for origin, case in cases:
         obs, cands, repo = run_impl(mods, case)
         ls = case_lines(mods, case, cands)
         if ls is None:
             ctx.count("skipped:===")
             continue
+        for c in cands:
+            ref = ref_installable(c.filename) if c.type == R.DistributionType.WHEEL else None
+            if ref is None or c.filename in seen_files:
+                continue
+            seen_files.add(c.filename)
+            got = R.check_usability(None, c, allow_prereleases=True) is None
+            ctx.count("installable:%s" % ("yes" if ref else "no"))
+            ctx.case(key=("installable", c.filename), nontrivial=False)
+            if got != ref:
+                ctx.mismatch("installable-vs-sys_tags", {"file": c.filename}, "usable" if got else "rejected",
+                             "supported by sys_tags()" if ref else "not supported by sys_tags()")
         info = {"resolved": len(repo.resolved), "ncands": len(cands),
                 "nfiltered": len(R.filter_candidates(pkg_resources.Requirement.parse(case["req"]), cands, allow_prereleases=case["allow_pre"]))}
         lines.append(ls["G"]); expect.append(("get_dist", case, obs, info))
@@ -458,8 +512,11 @@ def oracle(mods, case: Dict[str, Any]) -> Optional[str]:
     want = canonicalize_name(req.name)
     pinned_versions = [Version(sp.version) for sp in req.specifier if sp.operator == "==" and not sp.version.endswith(".*")]
 
-    def installable(c) -> bool:      # C20's subject: taken from the implementation
-        return R.check_usability(None, c, allow_prereleases=True) is None
+    def installable(c) -> bool:
+        # independent reading (sys_tags) where it applies; otherwise (sdists, odd names, bare cp3 tags: C20's
+        # subject) the implementation's verdict
+        ref = ref_installable(c.filename) if c.type == R.DistributionType.WHEEL else None
+        return ref if ref is not None else R.check_usability(None, c, allow_prereleases=True) is None
 
     def eligible(c) -> bool:         # could satisfy the request at all (pre-releases included)
         return (req.specifier.contains(c.version, prereleases=True) and installable(c)
@@ -492,8 +549,10 @@ def oracle(mods, case: Dict[str, Any]) -> Optional[str]:
         if not chosen:
             return "answer is not one of the candidates"
         c = chosen[0]
+        if not any(installable(x) for x in chosen):
+            return f"chosen {fname} is not installable on the running interpreter / platform (packaging.tags.sys_tags())"
         if not any(eligible(x) and good(x) for x in chosen):
-            return f"chosen {fname} is not eligible (specifier / installable / binary-only) or not readable / wrong name"
+            return f"chosen {fname} is not eligible (specifier / binary-only) or not readable / wrong name"
         pinned = any(Version(c.version.public) == pv or c.version == pv for pv in pinned_versions)
         flag = case["allow_pre"] or pinned or c.version.is_prerelease
         better = [x for x in pool(flag) if good(x) and x.version > c.version]
